@@ -26,6 +26,14 @@ use vrp_pragmatic::format::problem::PragmaticProblem;
 use vrp_pragmatic::format::solution::write_pragmatic;
 use vrp_pragmatic::format::ShiftIndexDimension;
 
+/// An execution quota that is used up.
+struct ReachedQuota;
+impl vrp_core::rosomaxa::utils::Quota for ReachedQuota {
+    fn is_reached(&self) -> bool {
+        true
+    }
+}
+
 fn jid(j: &Job) -> String {
     j.dimens().get_job_id().cloned().unwrap_or_default()
 }
@@ -112,6 +120,8 @@ fn recompute(ctx: &InsertionContext) -> InsertionContext {
             eprintln!("after accept_route_state: stale={} {:?}", rc.is_stale(), rc.state().verif_digest());
         }
     }
+    // per-solution values are cached as well: none of them may survive into the recomputation
+    copy.solution.state = Default::default();
     goal.accept_solution_state(&mut copy.solution);
     if std::env::var("VH_DUMP_CACHE").is_ok() {
         for rc in copy.solution.routes.iter() {
@@ -484,8 +494,23 @@ fn run_case(case: &Value, out: &mut NdjsonWriter) {
                     }
                     Err(p) => out.write(&json!({"case": id, "step": step, "op": format!("ruin:{rn}+recreate:{cn}"), "panic": p})),
                 }
-                let name = format!("rr:{rn}+{cn}");
-                match catch(|| RuinAndRecreate::new(ruin.clone(), rec.clone()).search(&rctx, &cur)) {
+                // one step in four: the recreate half runs under an execution quota that is already reached (a termination moment
+                // between ruin and recreate): nothing is put back, the ruined state is finalised and handed over
+                let under_quota = rnd.below(4) == 0;
+                let name = if under_quota { format!("rr:{rn}+{cn}|quota") } else { format!("rr:{rn}+{cn}") };
+                let run_rr = || {
+                    if under_quota {
+                        let mut a = ruin.run(&rctx, cur.deep_copy());
+                        let normal = a.environment.clone();
+                        a.environment = Arc::new(Environment { quota: Some(Arc::new(ReachedQuota)), ..normal.as_ref().clone() });
+                        let mut b = rec.run(&rctx, a);
+                        b.environment = normal;
+                        b
+                    } else {
+                        RuinAndRecreate::new(ruin.clone(), rec.clone()).search(&rctx, &cur)
+                    }
+                };
+                match catch(run_rr) {
                     Ok(next) => {
                         let after = full_digest(&cur);
                         emit(out, step, &name, "rr", true, &next, &before, &after);
